@@ -12,8 +12,12 @@ PROPERTY = "C15"
 LEVEL = "exploration"
 SCENARIOS = {"tasks-plain": 2, "tasks-parallel": 2, "processes": 3}
 TIERS = {"quick": {"runs": 4000, "chunk": 10}, "thorough": {"runs": 50000000, "wall_s": 600, "chunk": 50, "recheck": 16}}
-RULE = ("one run = 2-3 mailbox users of one simulated terminal, each doing 1-5 SDO exchanges "
-        "(expedited reads/writes of its own object, so every message is attributable), "
+RULE = ("one run = 2-4 mailbox users of 1-2 simulated terminals, each doing 1-5 operations: "
+        "expedited SDO reads/writes of its own object, segmented uploads/downloads of a long "
+        "object (several request/response pairs under one lock hold), SDO-information "
+        "requests through coe_request (read_object_entry, read_ODlist: fragmented answers, "
+        "dozens of exchanges); every request carries its user in the source-address field of "
+        "the mailbox header, so every message is attributable; "
         "answers delayed 0..4 polls so that exchanges overlap in time; 'tasks-plain': tasks "
         "of one process on an EtherCat (MailboxLock); 'tasks-parallel': tasks of one process "
         "on a ParallelEtherCat (ParallelMailboxLock on the shared lock file); 'processes': "
@@ -27,7 +31,8 @@ RULE = ("one run = 2-3 mailbox users of one simulated terminal, each doing 1-5 S
         "in time")
 COMPONENTS = {
     "real": ["ebpfcat.lock.MailboxLock/ParallelMailboxLock/LockFile", "ebpfcat.ethercat."
-             "Terminal.mbx_send/mbx_recv/sdo_read/sdo_write holding mbx_lock",
+             "Terminal.mbx_send/mbx_recv/coe_recv/coe_request/sdo_read/sdo_write/"
+             "read_object_entry/read_ODlist holding mbx_lock",
              "ebpfcat.ebpfcat.ParallelEtherCat.get_mbx_lock", "EtherCat.roundtrip path"],
     "stub": ["event loops (one per simulated process)", "process scheduler (baton-passing "
              "threads, tape-driven pre-emption)", "in-memory file system + fcntl record "
@@ -50,9 +55,16 @@ def run(tape, scenario):
     bus.route_by_data0 = parallel
     od = ObjectDictionary()
     nusers = 2 + tape.draw("c15/nusers", 3)
-    for u in range(nusers):
-        od.set(0x2000 + u, 1, struct.pack("<I", 0x1000 + u))
     mbx = tape.pick("c15/mbxsz", [48, 64, 128])
+    # per user: a 4-byte object (expedited transfers) and a long one (segmented transfers:
+    # several request/response pairs under one lock hold); names long enough to make the
+    # SDO-information answers of small mailboxes come in fragments
+    long_len = 2 * mbx + 5
+    long_value = {}
+    for u in range(nusers):
+        od.set(0x2000 + u, 1, struct.pack("<I", 0x1000 + u), name=f"user {u} counter " + "c" * 30)
+        long_value[u] = bytes((u * 37 + i) & 0xff for i in range(long_len))
+        od.set(0x3000 + u, 1, long_value[u], name=f"user {u} blob")
     nterm = 1 + tape.draw("c15/nterm", 2)
     sterms = []
     for k in range(nterm):
@@ -60,6 +72,7 @@ def run(tape, scenario):
                                 mbx_in=(0x1400, mbx), od=od)
         maxd = tape.draw("c15/maxdelay", 5)
         st.mbx_delay = lambda maxd=maxd: tape.draw("c15/answer-delay", maxd + 1)
+        st.mbx_busy = lambda srv=srv: srv.transfer is not None
         sterms.append((st, srv))
     # user u talks to terminal user_term[u]; users 0 and 1 always share terminal 0
     user_term = [0, 0] + [tape.draw("c15/user-term", nterm) for _ in range(nusers - 2)]
@@ -95,12 +108,19 @@ def run(tape, scenario):
         orig_send, orig_recv = tobj.mbx_send, tobj.mbx_recv
 
         async def mbx_send(*a, **k):
-            busy[task_user.get(asyncio.current_task())] = True
+            u = task_user.get(asyncio.current_task())
+            busy[u] = True
+            if u is not None:
+                # tag the message with its user in the (otherwise unused) source address
+                # field of the mailbox header, so that the terminal knows who wrote it
+                k.setdefault("address", 0x100 + u)
             return await orig_send(*a, **k)
 
         async def mbx_recv(*a, **k):
+            u = task_user.get(asyncio.current_task())
+            busy[u] = True       # also while waiting for a further fragment
             ret = await orig_recv(*a, **k)
-            busy[task_user.get(asyncio.current_task())] = False
+            busy[u] = False
             return ret
         tobj.mbx_send, tobj.mbx_recv = mbx_send, mbx_recv
         return tobj
@@ -112,12 +132,40 @@ def run(tape, scenario):
             pause = tape.draw("c15/pause", 4)
             if pause:
                 await asyncio.sleep([0, 0, 40e-6, 300e-6][pause])
-            if tape.chance("c15/write-op", 40):
+            kind = tape.draw("c15/op-kind", 10)
+            tno = user_term[u]
+            if kind < 3:
                 await t.sdo_write(struct.pack("<I", 0x5000 + 16 * u + k), 0x2000 + u, 1)
-            else:
+            elif kind < 6:
                 got = await t.sdo_read(0x2000 + u, 1)
                 if len(got) != 4:
                     viol("wrong-answer", f"user {u} read {got!r}")
+            elif kind == 6:      # segmented upload: several exchanges under one lock hold
+                got = await t.sdo_read(0x3000 + u, 1)
+                if got != long_value[u]:
+                    viol("wrong-answer", f"user {u}: segmented upload returned {len(got)} "
+                         f"bytes, differing from its {len(long_value[u])}-byte object")
+                world.count("c15/segmented-upload")
+            elif kind == 7:      # segmented download
+                val = bytes((u * 41 + k * 7 + i) & 0xff for i in range(long_len))
+                await t.sdo_write(val, 0x3000 + u, 1)
+                long_value[u] = val
+                world.count("c15/segmented-download")
+            elif kind == 8:      # SDO information: answers may come in fragments
+                oe = await t.read_object_entry(0x2000 + u, 1)
+                if oe.bitLength != 32 or not oe.name.startswith(f"user {u} counter"):
+                    viol("wrong-answer", f"user {u}: entry description {oe.bitLength} bits, "
+                         f"name {oe.name!r}")
+                world.count("c15/sdo-info-entry")
+            else:                # the whole object dictionary: dozens of exchanges
+                if tape.chance("c15/odlist", 40):
+                    odl = await t.read_ODlist()
+                    if sorted(odl) != sorted(od.indexes()):
+                        viol("wrong-answer", f"user {u}: OD list {sorted(odl)}, the terminal "
+                             f"has {od.indexes()}")
+                    world.count("c15/sdo-info-odlist")
+                else:
+                    await t.sdo_read(0x2000 + u, 1)
             done_ops[u] = k + 1
 
     async def user(u, t, nops):
@@ -202,32 +250,41 @@ def run(tape, scenario):
         viol("did-not-finish", aborted, scenario=scenario)
 
     # ---- oracle at the terminal
-    def who(raw):
-        if len(raw) >= 12 and raw[5] & 0xf == 3:
-            idx, = struct.unpack_from("<H", raw, 9)
-            return idx - 0x2000
+    def who(k, raw):
+        if k == "w":           # requests carry their user in the source address field
+            adr, = struct.unpack_from("<H", raw, 2)
+            return adr - 0x100 if 0x100 <= adr < 0x200 else None
+        if len(raw) >= 12 and raw[5] & 0xf == 3 and raw[7] >> 4 == 3:
+            idx, = struct.unpack_from("<H", raw, 9)       # SDO responses echo the index
+            if 0x2000 <= idx < 0x2100 or 0x3000 <= idx < 0x3100:
+                return idx & 0xff
         return None
     all_events = []
     overlap_users = 0
     for tno, (st, server) in enumerate(sterms):
-        events = [(k, who(raw), (raw[5] >> 4) & 7) for k, raw in st.mbx_log]
-        all_events.append(events)
-        open_req = None
-        for k, u, cnt in events:
+        events = [(k, who(k, raw), (raw[5] >> 4) & 7, more) for k, raw, more in st.mbx_log]
+        all_events.append([e[:3] for e in events])
+        open_req = None        # ("user", u) while an exchange is open at this terminal
+        for pos, (k, u, cnt, more) in enumerate(events):
             if k == "w":
-                if open_req is not None:
+                # one exchange may consist of several request/response pairs (segmented
+                # transfer) or several responses (fragmented SDO information): only a
+                # request of *another* user inside it is an interleaving
+                if open_req is not None and open_req[1] != u:
                     viol("exchanges-interleaved",
-                         f"terminal {tno}: user {u} wrote a request while user {open_req}'s "
+                         f"terminal {tno}: user {u} wrote a request while user {open_req[1]}'s "
                          f"exchange was open (mailbox events "
-                         f"{[(a, b) for a, b, c in events][:16]})", scenario=scenario)
+                         f"{[(a, b) for a, b, c, d in events][max(0, pos - 12):pos + 2]})",
+                         scenario=scenario)
                     break
-                open_req = u
+                open_req = ("user", u)
             else:
-                if open_req is not None and u is not None and u != open_req:
+                if open_req is not None and u is not None and u != open_req[1]:
                     viol("foreign-answer-read", f"terminal {tno}: answer for user {u} read "
-                         f"while user {open_req}'s exchange was open", scenario=scenario)
-                open_req = None
-        counters = [cnt for k, u, cnt in events if k == "w"]
+                         f"while user {open_req[1]}'s exchange was open", scenario=scenario)
+                if not more:   # no further fragment queued, no segmented transfer going on
+                    open_req = None
+        counters = [cnt for k, u, cnt, more in events if k == "w"]
         for i, c in enumerate(counters):
             ok = 0 <= c <= 7 if i == 0 else c == counters[i - 1] % 7 + 1
             if not ok:
@@ -238,7 +295,7 @@ def run(tape, scenario):
             if d.rule.startswith("counter"):
                 viol("counter-sequence", f"terminal {tno} server: {d.rule}: {d.detail}; "
                      f"counters {counters}", scenario=scenario)
-        users_seen = [u for k, u, c in events if k == "w"]
+        users_seen = [u for k, u, c, more in events if k == "w"]
         overlap_users += sum(1 for a, b in zip(users_seen, users_seen[1:]) if a != b)
     events = [e for ev in all_events for e in ev]
     for u in range(nusers):
